@@ -109,6 +109,9 @@ func (ex *Exec) verifyFunc(fn *ssa.Function, con *Contract) {
 	}
 	st := &State{ex: ex, heap: map[string]string{}, entry: map[string]string{}, visited: map[int]int{}}
 	fr := &Frame{fn: fn, vals: map[ssa.Value]Val{}, loops: findLoops(fn), top: true, ord: siteNames(fn), names: map[string]nameBinding{}}
+	if con.Safety != "logging" {
+		fr.elide = ex.computeElision(fn)
+	}
 	st.fr = fr
 	bindIn := func(v ssa.Value, name string) {
 		s := ex.ctx.sortFor(v.Type())
@@ -252,6 +255,14 @@ func (ex *Exec) explore(st *State, b *ssa.BasicBlock, idx int, pred *ssa.BasicBl
 			}
 			continue
 		case *ssa.If:
+			if fr.elide != nil {
+				if j := fr.elide.join[b]; j != nil {
+					ex.noteAssumption("branches that only guard logging are skipped: their bodies are neither executed nor checked for panics")
+					// enter the join block as if from one of its predecessors (it has no phis)
+					ex.explore(st, j, 0, j.Preds[0])
+					return
+				}
+			}
 			c := ex.val(st, x.Cond)
 			if c.T == "true" {
 				ex.explore(st, b.Succs[0], 0, b)
@@ -481,7 +492,7 @@ func (ex *Exec) exitNormal(st *State, results []Val) {
 	con := run.con
 	run.exits++
 	env := ex.exitEnv(st, results)
-	if run.exits <= 10 {
+	if run.exits <= 48 {
 		o := ex.newObl(st, "vacuity", "exit_reachable", "false", "some return path is feasible", con.Props)
 		o.Canary = true
 	}
